@@ -137,7 +137,7 @@ Ltac unfold_prims H :=
 Ltac rsimpl :=
   cbn [cur stack depth objects rectypes rectype_name arr_type more_chunks built arr_total chunk_expected chunk_actual
        utf8_rem arr_validator marker_id marked fwd refcount
-       set_cur set_stack set_depth set_objects set_rectypes set_array set_markers set_rule stack_rule begin_array mk_entry
+       set_cur set_stack set_depth set_objects set_rectypes set_array set_markers set_rule stack_rule begin_array mk_entry tag_marker_entry
        e_rule e_dtype e_count e_expected e_keys] in *.
 
 Ltac prim_cases p H := destruct p; unfold_prims H; inv_some.
